@@ -268,15 +268,28 @@ def run(tier, seed):
         n2 = distgen.leaf(rnd, dd, allow=("normaldiag", "laplace", "uniform"), bounds_p=0.7)
         try:
             br = D.BayesRule([n1.obj])
+            refused = None
+            if rnd.random() < 0.5:
+                # a part of another dimension is refused - and a refused part is not a part: the object goes on as it was
+                try:
+                    br.add_distribution(D.Normal(np.zeros((dd + 1, 1)), 1.0))
+                    refused = "accepted"
+                except AssertionError:
+                    refused = "AssertionError"
+                except Exception as e:
+                    refused = repr(e)
+                se.count("a part of the wrong dimension offered first")
             br.add_distribution(n2.obj)
             # the parts are used again in a second composition (other order): it must see the parts as they were constructed
             br2 = D.BayesRule([n2.obj, n1.obj])
         except Exception as e:
             se.case({"kind": "add_distribution", "parts": [n1.desc, n2.desc]})
             se.disagree({"parts": [n1.desc, n2.desc]}, "composable", repr(e), "BayesRule / add_distribution raised")
-            findings.append(Finding("C13", f"BayesRule / add_distribution of two legal parts raised {e!r}", {"kind": "additive", "problem": "composition raised"},
-                                    {"parts": [n1.desc, n2.desc], "error": repr(e)}))
+            findings.append(Finding("C13", f"BayesRule / add_distribution of two legal parts raised {e!r}" + (f" (after a part of the wrong dimension had been refused with {refused})" if refused else ""),
+                                    {"kind": "additive", "problem": "composition raised"}, {"parts": [n1.desc, n2.desc], "error": repr(e), "refused_before": refused}))
             continue
+        if refused == "accepted":
+            findings.append(Finding("C13", "add_distribution accepted a part of another dimension", {"kind": "additive", "problem": "wrong dimension accepted"}, {"parts": [n1.desc]}))
         damaged = distgen.intact_problems(n1, "first part") + distgen.intact_problems(n2, "second part")
         if damaged:
             findings.append(Finding("C13", "add_distribution / BayesRule changed a part: " + damaged[0], {"kind": "additive", "problem": "composing changed a part"},
@@ -296,6 +309,24 @@ def run(tier, seed):
             se.disagree({"parts": [n1.desc, n2.desc]}, "intersection / sum", "differs", "add_distribution")
             findings.append(Finding("C13", "add_distribution: bounds are not the intersection or misfit not the sum", {"kind": "add_distribution"},
                                     {"parts": [n1.desc, n2.desc], "x": xx.ravel().tolist()}))
+    # the change of variables in many dimensions: the log-Jacobian is a sum of logarithms (the Jacobian itself leaves the floating-point range long before its logarithm does)
+    for _ in range(24 if thorough else 6):
+        dd = rnd.choice([60, 120, 250, 400])
+        base = rnd.choice([10, 2.0, math.e])
+        mag = rnd.choice([3000.0, 1e-4, 1.0, 1e6])
+        xx = np.array([[mag * rnd.uniform(0.5, 2.0)] for _ in range(dd)])
+        inner = D.Normal(np.log(xx * rnd.uniform(0.9, 1.1)) / math.log(base), np.full((dd, 1), 0.05))
+        tr = D.TransformToLogSpace(inner, base=base)
+        se.case({"kind": "logt-many-dimensions", "dimensions": dd, "base": base, "magnitude": mag})
+        se.count(f"logt dimensions={dd}")
+        with np.errstate(all="ignore"):
+            mm = float(tr.misfit(xx.copy()))
+            em = float(inner.misfit(np.log(xx) / math.log(base))) + float(np.sum(np.log(xx * math.log(base))))
+            gg = np.array(tr.gradient(xx.copy()), dtype=float)
+        if not (math.isfinite(mm) and common.close(mm, em, 1e-9, 1e-9) and np.all(np.isfinite(gg))):
+            se.disagree({"dimensions": dd, "base": base, "magnitude": mag}, em, mm, "log transform in many dimensions")
+            findings.append(Finding("C13", f"TransformToLogSpace in {dd} dimensions (parameters of order {mag:g}, base {base:g}): misfit {mm!r}, expected inner(log_b m) + sum log(m ln b) = {em!r}",
+                                    {"kind": "logt", "problem": "many dimensions"}, {"dimensions": dd, "base": base, "x": xx.ravel().tolist()[:8]}))
     return [st, sc, se], findings
 
 
